@@ -6,7 +6,8 @@
    The basis tree holds two text files a, b, a symlink l -> t0 and a directory d.  Text files follow the two-region
    model: a header line, region A (one line), eight separator lines, region B (one line), a trailer - far enough apart
    that a unified diff with three lines of context gives one hunk per region, so the regions are independently
-   selectable hunks.  A pending change set D is a set of ATOMS [f, k]:
+   selectable hunks.  A local edit of region A replaces its line AND adds one, so the positions of a later hunk depend
+   on whether the first one is shelved.  A pending change set D is a set of ATOMS [f, k]:
 
        a: modA modB   edit region A / B                 ren    move into d/ under a new name (d/ar)
           del         brz rm (unversioned and gone)     miss   file deleted on disk, still versioned
